@@ -223,6 +223,66 @@ theorem tick_schedule (e : Fsm) (b : Band) (table : Option Table) (lastTx0 : Nat
       · rw [h]; omega
     rw [if_neg this]
 
+/-! ## r counts the Hellos of ONE block, over every history
+
+`./check C13` follows the count of Hellos heard since the block began on the specification side (reset when an enumeration
+starts and when a block ends, one more for each Hello heard) and applies the block-end predicates to THAT count; the
+theorem below is why this is what the model's `r` holds after every sequence of RepeatBand calls. -/
+
+inductive BOp where
+  | init (nowMs : Nat)          -- band_init_stats: an enumeration starts
+  | heard                       -- band_on_hello_received
+  | update (nowMs : Nat)        -- band_update_stats: a block ends
+  | choose (nowMs : Nat)        -- band_choose_hello_time
+  | doHello (nowMs : Nat)       -- band_do_hello
+  | quiesce                     -- the tick's "table empty" branch: timers disarmed
+
+def bstep (b : Band) : BOp → Band
+  | .init n => bandInitStats b n
+  | .heard => bandOnHelloReceived b
+  | .update n => bandUpdateStats b n
+  | .choose n => bandChooseHelloTime b n
+  | .doHello n => bandDoHello b n
+  | .quiesce => { b with helloTs := 0, blockTs := 0, begun := false }
+
+/-- the specification's count of Hellos heard in the current block -/
+def cstep (n : Nat) : BOp → Nat
+  | .init _ => 0
+  | .heard => (n + 1) % u32
+  | .update _ => 0
+  | _ => n
+
+theorem block_count (ops : List BOp) (b : Band) (n : Nat) (h : b.r = n) : (ops.foldl bstep b).r = ops.foldl cstep n := by
+  induction ops generalizing b n with
+  | nil => exact h
+  | cons op rest ih =>
+    simp only [List.foldl_cons]
+    apply ih
+    cases op <;> simp [bstep, cstep, bandInitStats, bandOnHelloReceived, bandUpdateStats, bandChooseHelloTime, bandDoHello, h]
+
+/-- the tick touches the count only by ending a block -/
+theorem tick_count (e : Fsm) (b : Band) (table : Option Table) (lastTx0 : Nat) (port : PortMode) (nowMs : Nat) :
+    match (tickEnumStage (some (e, some b)) table lastTx0 port nowMs).1 with
+    | some (_, some b') => b'.r = b.r ∨ (b'.r = 0 ∧ b'.blockTs = nowMs + X.bandBlockTime)
+    | _ => True := by
+  unfold tickEnumStage
+  simp only []
+  have hu : (enumUpdate e b (tableEmptyOf table) (allCompleteOf table) (nowMs / 1000)).2.r = b.r := by
+    unfold enumUpdate
+    repeat' split
+    all_goals rfl
+  by_cases hs : (enumUpdate e b (tableEmptyOf table) (allCompleteOf table) (nowMs / 1000)).1.state = 1
+  · simp only [hs, if_true]
+    have hh : (enumHello (enumUpdate e b (tableEmptyOf table) (allCompleteOf table) (nowMs / 1000)).1
+        (enumUpdate e b (tableEmptyOf table) (allCompleteOf table) (nowMs / 1000)).2 lastTx0 port nowMs).2.1.r = b.r := by
+      rw [(enumHello_band _ _ lastTx0 port nowMs).1, hu]
+    unfold enumBlock
+    split
+    · exact Or.inr ⟨rfl, rfl⟩
+    · exact Or.inl hh
+  · simp only [hs, if_false]
+    exact Or.inl hu
+
 /-- non-vacuity / the repaired overflow: r = 65536 saturates instead of wrapping to 0 -/
 example : bandNewNi 65536 = 10000 ∧ bandNewNi 14 = 8820 ∧ bandNewNi 15 = 10000 ∧ bandNewNi 4294967295 = 10000 := by decide
 
